@@ -208,8 +208,12 @@ func c20Body(c *run.Ctx) {
 	nontrivial := false
 	labels := map[string]bool{}
 	// a drawn set of actors attached in a drawn order
-	kinds := []string{"observer", "system", "player", "scribbler", "observer"}
-	n := c.Ch.Int("actors", 1, 5)
+	// "toggler": an observer that starts in system mode and is switched to plain mode at a
+	// drawn snapshot (possibly in the middle of a hand); from then on it is judged as a plain
+	// observer. The snapshot numbers are drawn here, on the test goroutine.
+	kinds := []string{"observer", "system", "player", "scribbler", "observer", "toggler"}
+	toggleAt := c.Ch.Int("toggle.at", 1, 14)
+	n := c.Ch.Int("actors", 1, 6)
 	perm := choose.Perm(c.Ch, "actor.order", len(kinds))
 	order := []string{}
 	for i := 0; i < n; i++ {
@@ -233,6 +237,7 @@ func c20Body(c *run.Ctx) {
 		kind    string
 		adapter pactor.Adapter
 		got     *received
+		sw      interface{ EnabledSystemMode(bool) }
 	}
 	var atts []*att
 	playerID := ""
@@ -243,11 +248,12 @@ func c20Body(c *run.Ctx) {
 			a.SetAdapter(ad)
 			x := &att{kind: k, adapter: ad}
 			switch k {
-			case "observer", "system", "scribbler":
+			case "observer", "system", "scribbler", "toggler":
 				ob := pactor.NewObserverRunner()
 				if k != "observer" {
 					ob.EnabledSystemMode(true)
 				}
+				x.sw = ob
 				kk := k
 				ob.OnTableStateUpdated(func(t *pokertable.Table) {
 					b, _ := json.Marshal(t)
@@ -275,6 +281,19 @@ func c20Body(c *run.Ctx) {
 			build(live)
 		}
 		snapshots++
+		if snapshots == toggleAt {
+			for _, x := range atts {
+				if x.kind == "toggler" {
+					x.sw.EnabledSystemMode(false)
+					x.kind = "observer"
+					if live.State.GameState != nil {
+						labels["system_mode_switched_off_mid_hand"] = true
+					} else {
+						labels["system_mode_switched_off_between_hands"] = true
+					}
+				}
+			}
+		}
 		before, _ := json.Marshal(live)
 		for _, x := range atts {
 			x.got = nil
